@@ -3,9 +3,10 @@
     proved equal in Lemmas/L_Paraxial.v): moving surface idx and everything behind it by d changes the
     ray height on surface idx by d times the slope ARRIVING at that surface.  Hence the offset that
     places the ray at height h is (h - y_idx) / u_(idx-1).
-    Implementation side: the regenerated MarginalRayHeightSolve.apply moves exactly those vertices, by
-    (h - ya[idx]) / ua[idx]  -- the slope AFTER the surface.  It places the ray when the two slopes
-    agree (an unpowered surface such as the image plane); otherwise it does not (Findings/F_C01.v). *)
+    Implementation side (after the fix: commits 0fb8939 / a10a20f): the regenerated
+    MarginalRayHeightSolve.apply moves exactly those vertices by (h - ya[idx]) / ua[idx-1], and
+    Optic.image_solve moves the image plane by -ya[-1] / ua[-2]: both are proved to place the ray, on
+    every surface (powered or not), for a fixed launch ray. *)
 From Coq Require Import Reals ZArith List Bool Lia Lra.
 From OV Require Import Ops RInst Gen.LensEdit Spec.S_ABCD Spec.S_C01 Lemmas.L_C01_lists Lemmas.L_Paraxial.
 Import ListNotations.
@@ -73,12 +74,14 @@ Qed.
 (** ** what the regenerated MarginalRayHeightSolve.apply does to the vertex positions *)
 Theorem mrh_kernel_is_shift (ya ua : list R) (h : R) (idx : Z) (ss : list asurf) :
   (0 <= idx)%Z ->
-  k_c01_mrh_apply ROps ya ua h idx (map a_z ss) (Z.of_nat (List.length ss)) =
+  k_c01_mrh_apply ROps ya ua idx h (map a_z ss) (Z.of_nat (List.length ss)) =
   map a_z (firstn (Z.to_nat idx) ss ++
-           shift_from ((h - getZ (O:=ROps) ya idx) / getZ (O:=ROps) ua idx) (skipn (Z.to_nat idx) ss)).
+           shift_from ((h - getZ (O:=ROps) ya idx) /
+                       (if (idx >? 0)%Z then getZ (O:=ROps) ua (idx - 1) else getZ (O:=ROps) ua idx))
+                      (skipn (Z.to_nat idx) ss)).
 Proof.
   intros Hi. unfold k_c01_mrh_apply. rops.
-  set (d := (h - getZ (O:=ROps) ya idx) / getZ (O:=ROps) ua idx).
+  set (d := (h - getZ (O:=ROps) ya idx) / (if (idx >? 0)%Z then getZ (O:=ROps) ua (idx - 1) else getZ (O:=ROps) ua idx)).
   apply list_ext_nth.
   - rewrite map_rangeZ_length, Nat2Z.id, map_length, app_length. unfold shift_from. rewrite map_length.
     rewrite <- app_length, firstn_skipn. reflexivity.
@@ -104,22 +107,82 @@ Proof.
       rewrite (nth_error_nth _ _ _ Es). reflexivity.
 Qed.
 
-(** the implementation's solve places the ray when the surface does not change the slope
-    (e.g. the image plane in the medium of image space); [up] is the slope arriving *)
-Theorem mrh_kernel_places_partial pre s post st h :
-  a_obj s = false ->
+Lemma nth_pred_last {A} (l : list A) d : nth (List.length l - 1) l d = last l d.
+Proof.
+  induction l as [|a l IH]; [reflexivity|]. destruct l as [|b l]; [reflexivity|].
+  change (last (a :: b :: l) d) with (last (b :: l) d). rewrite <- IH.
+  cbn [List.length]. replace (S (S (List.length l)) - 1)%nat with (S (List.length l)) by lia.
+  replace (S (List.length l) - 1)%nat with (List.length l) by lia. reflexivity.
+Qed.
+
+(** the record of the last surface of [pre] carries the slope with which the ray leaves [pre] *)
+Lemma afinal_last pre : forall st, pre <> [] ->
+  let '(yp, up, zp) := afinal pre st in last (atrace pre st) (0, 0) = (yp, up).
+Proof.
+  induction pre as [|s pre IH]; intros st NE; [contradiction|].
+  cbn [afinal fold_left atrace]. destruct (astep s st) as [[y u] z] eqn:E.
+  destruct pre as [|s2 pre].
+  - cbn. reflexivity.
+  - specialize (IH (y, u, z) ltac:(discriminate)). unfold afinal in IH.
+    destruct (fold_left (fun st0 s0 => astep s0 st0) (s2 :: pre) (y, u, z)) as [[yp up] zp].
+    rewrite <- IH. destruct (atrace (s2 :: pre) (y, u, z)) eqn:EA; [|reflexivity].
+    cbn [atrace] in EA. destruct (astep s2 (y, u, z)) as [[? ?] ?]. discriminate.
+Qed.
+
+(** a lens whose vertex positions are replaced by a list of positions *)
+Definition set_az (s : asurf) (z : R) : asurf := mkAS z (a_c s) (a_n1 s) (a_n2 s) (a_refl s) (a_obj s).
+Definition with_zs (ss : list asurf) (zs : list R) : list asurf := map (fun p => set_az (fst p) (snd p)) (combine ss zs).
+
+Lemma with_zs_shift0 d r :
+  map (fun p => set_az (fst p) (snd p)) (combine r (map a_z (map (shift_surf d) r))) = map (shift_surf d) r.
+Proof. induction r as [|s r IH]; [reflexivity|]. cbn [map combine fst snd]. rewrite IH. reflexivity. Qed.
+
+Lemma with_zs_shift d pre r : with_zs (pre ++ r) (map a_z (pre ++ shift_from d r)) = pre ++ shift_from d r.
+Proof.
+  unfold with_zs, shift_from. induction pre as [|s pre IH].
+  - cbn [app]. apply with_zs_shift0.
+  - cbn [app map combine fst snd]. rewrite IH. f_equal. destruct s; reflexivity.
+Qed.
+
+(** ** The repaired solve places the marginal ray at the requested height on ANY surface behind the first
+    (powered or not), for every lens, every launch ray and every height: retracing the lens with the
+    vertex positions the regenerated kernel returns gives height h on surface idx *)
+Theorem mrh_solve_places pre s post st h :
+  pre <> [] -> a_obj s = false ->
   let ss := pre ++ s :: post in
   let rec := atrace ss st in
   let idx := Z.of_nat (List.length pre) in
   let '(yp, up, zp) := afinal pre st in
   up <> 0 ->
-  snd (nth (List.length pre) rec (0, 0)) = up ->          (* slope behind the surface = slope arriving *)
-  forall ss', map a_z ss' = k_c01_mrh_apply ROps (map fst rec) (map snd rec) h idx (map a_z ss) (Z.of_nat (List.length ss)) ->
-              ss' = pre ++ shift_from ((h - fst (nth (List.length pre) rec (0, 0))) / up) (s :: post) ->
-  fst (nth (List.length pre) (atrace ss' st) (0, 0)) = h.
+  let zs' := k_c01_mrh_apply ROps (map fst rec) (map snd rec) idx h (map a_z ss) (Z.of_nat (List.length ss)) in
+  fst (nth (List.length pre) (atrace (with_zs ss zs') st) (0, 0)) = h.
 Proof.
-  intros Ho. cbn zeta. generalize (mrh_solve_correct pre s post st h Ho).
-  destruct (afinal pre st) as [[yp up] zp]. intros MC Hu Hs ss' _ ->. apply MC. exact Hu.
+  intros NE Ho. cbv zeta.
+  generalize (mrh_solve_correct pre s post st h Ho). generalize (afinal_last pre st NE).
+  destruct (afinal pre st) as [[yp up] zp]. intros AL MC Hu.
+  rewrite mrh_kernel_is_shift by lia. rewrite Nat2Z.id.
+  rewrite firstn_app, firstn_all, Nat.sub_diag. cbn [firstn]. rewrite app_nil_r.
+  rewrite skipn_app, skipn_all, Nat.sub_diag. cbn [skipn app].
+  assert (Lp : (0 < List.length pre)%nat) by (destruct pre; [contradiction|simpl; lia]).
+  destruct (Z.gtb_spec (Z.of_nat (List.length pre)) 0) as [_|]; [|lia].
+  assert (LR : List.length (atrace (pre ++ s :: post) st) = List.length (pre ++ s :: post)) by apply atrace_length.
+  rewrite (getZ_of_nat (O:=ROps) (map fst (atrace (pre ++ s :: post) st)) (List.length pre) 0)
+    by (rewrite map_length, LR, app_length; simpl; lia).
+  replace (Z.of_nat (List.length pre) - 1)%Z with (Z.of_nat (List.length pre - 1)) by lia.
+  rewrite (getZ_of_nat (O:=ROps) (map snd (atrace (pre ++ s :: post) st)) (List.length pre - 1) 0)
+    by (rewrite map_length, LR, app_length; simpl; lia).
+  change (T ROps) with R.
+  replace (nth (List.length pre) (map fst (atrace (pre ++ s :: post) st)) 0)
+    with (fst (nth (List.length pre) (atrace (pre ++ s :: post) st) (0, 0)))
+    by (symmetry; apply (map_nth fst (atrace (pre ++ s :: post) st) (0, 0))).
+  replace (nth (List.length pre - 1) (map snd (atrace (pre ++ s :: post) st)) 0)
+    with (snd (nth (List.length pre - 1) (atrace (pre ++ s :: post) st) (0, 0)))
+    by (symmetry; apply (map_nth snd (atrace (pre ++ s :: post) st) (0, 0))).
+  assert (EU : snd (nth (List.length pre - 1) (atrace (pre ++ s :: post) st) (0, 0)) = up).
+  { rewrite atrace_app. rewrite app_nth1 by (rewrite atrace_length; lia).
+    rewrite <- (atrace_length pre st) at 1. rewrite nth_pred_last. rewrite AL. reflexivity. }
+  rewrite EU.
+  rewrite with_zs_shift. apply MC. exact Hu.
 Qed.
 
 (** ** image solve: moving the image plane by -y/u brings the marginal ray onto the axis, provided the
@@ -135,28 +198,95 @@ Proof.
   intros SH Hu. cbn zeta. rewrite (SH _ Ho). field. exact Hu.
 Qed.
 
-(** the regenerated Optic.image_solve moves only the last vertex, by -(ya[-1] / ua[-1]) *)
-Theorem image_solve_kernel (ya ua zs : list R) (z : R) :
-  k_c01_image_solve ROps ya ua (zs ++ [z]) =
-  zs ++ [z - getZ (O:=ROps) ya (-1) / getZ (O:=ROps) ua (-1)].
+Lemma getZ_m1 (l : list R) a : getZ (O:=ROps) (l ++ [a]) (-1) = a.
 Proof.
-  unfold k_c01_image_solve. rops. change (Z.opp 1) with (-1)%Z.
-  assert (G : getZ (O:=ROps) (zs ++ [z]) (-1) = z).
-  { unfold getZ, nthZ. rewrite app_length. cbn [List.length].
-    destruct (Z.ltb_spec (-1) 0); [|lia].
-    destruct (Z.ltb_spec (Z.of_nat (List.length zs + 1) + -1) 0); [lia|].
-    destruct (Z.leb_spec (Z.of_nat (List.length zs + 1)) (Z.of_nat (List.length zs + 1) + -1)); [lia|].
-    cbn [orb]. replace (Z.to_nat (Z.of_nat (List.length zs + 1) + -1)) with (List.length zs) by lia.
-    rewrite nth_error_app2 by lia. rewrite Nat.sub_diag. reflexivity. }
-  rewrite G. unfold setZ. rewrite app_length. cbn [List.length].
+  unfold getZ, nthZ. rewrite app_length. cbn [List.length].
   destruct (Z.ltb_spec (-1) 0); [|lia].
-  destruct (Z.ltb_spec (Z.of_nat (List.length zs + 1) + -1) 0); [lia|].
-  destruct (Z.leb_spec (Z.of_nat (List.length zs + 1)) (Z.of_nat (List.length zs + 1) + -1)); [lia|].
-  cbn [orb]. replace (Z.to_nat (Z.of_nat (List.length zs + 1) + -1)) with (List.length zs) by lia.
-  clear. induction zs as [|a zs IH]; [reflexivity|]. cbn [app List.length set_nth]. f_equal. exact IH.
+  destruct (Z.ltb_spec (Z.of_nat (List.length l + 1) + -1) 0); [lia|].
+  destruct (Z.leb_spec (Z.of_nat (List.length l + 1)) (Z.of_nat (List.length l + 1) + -1)); [lia|].
+  cbn [orb]. replace (Z.to_nat (Z.of_nat (List.length l + 1) + -1)) with (List.length l) by lia.
+  rewrite nth_error_app2 by lia. rewrite Nat.sub_diag. reflexivity.
+Qed.
+Lemma getZ_m2 (l : list R) a b : getZ (O:=ROps) (l ++ [a; b]) (-2) = a.
+Proof.
+  unfold getZ, nthZ. rewrite app_length. cbn [List.length].
+  destruct (Z.ltb_spec (-2) 0); [|lia].
+  destruct (Z.ltb_spec (Z.of_nat (List.length l + 2) + -2) 0); [lia|].
+  destruct (Z.leb_spec (Z.of_nat (List.length l + 2)) (Z.of_nat (List.length l + 2) + -2)); [lia|].
+  cbn [orb]. replace (Z.to_nat (Z.of_nat (List.length l + 2) + -2)) with (List.length l) by lia.
+  rewrite nth_error_app2 by lia. rewrite Nat.sub_diag. reflexivity.
+Qed.
+Lemma setZ_m1 (l : list R) a x : setZ (O:=ROps) (l ++ [a]) (-1) x = l ++ [x].
+Proof.
+  unfold setZ. rewrite app_length. cbn [List.length].
+  destruct (Z.ltb_spec (-1) 0); [|lia].
+  destruct (Z.ltb_spec (Z.of_nat (List.length l + 1) + -1) 0); [lia|].
+  destruct (Z.leb_spec (Z.of_nat (List.length l + 1)) (Z.of_nat (List.length l + 1) + -1)); [lia|].
+  cbn [orb]. replace (Z.to_nat (Z.of_nat (List.length l + 1) + -1)) with (List.length l) by lia.
+  clear. induction l as [|c l IH]; [reflexivity|]. cbn [app List.length set_nth]. f_equal. exact IH.
+Qed.
+
+(** the regenerated Optic.image_solve moves only the last vertex, by -(ya[-1] / ua[-2]) *)
+Theorem image_solve_kernel (ya ua zs : list R) (y u_in u_out z : R) :
+  k_c01_image_solve ROps (ya ++ [y]) (ua ++ [u_in; u_out]) (zs ++ [z]) = zs ++ [z - y / u_in].
+Proof.
+  unfold k_c01_image_solve. rops. change (Z.opp 1) with (-1)%Z. change (Z.opp 2) with (-2)%Z.
+  rewrite app_length. cbn [List.length].
+  destruct (Z.gtb_spec (Z.of_nat (List.length ua + 2)) 1) as [_|]; [|lia].
+  rewrite getZ_m1, getZ_m2, getZ_m1, setZ_m1. reflexivity.
+Qed.
+
+(** ** The repaired image_solve brings the marginal ray onto the axis at the image surface, whatever
+    media surround that surface *)
+Theorem image_solve_places pre img st :
+  pre <> [] -> a_obj img = false ->
+  let ss := pre ++ [img] in
+  let rec := atrace ss st in
+  let '(yp, up, zp) := afinal pre st in
+  up <> 0 ->
+  let zs' := k_c01_image_solve ROps (map fst rec) (map snd rec) (map a_z ss) in
+  fst (nth (List.length pre) (atrace (with_zs ss zs') st) (0, 0)) = 0.
+Proof.
+  intros NE Ho. cbv zeta.
+  generalize (image_solve_focus pre img st Ho). generalize (afinal_last pre st NE).
+  destruct (afinal pre st) as [[yp up] zp] eqn:EF. intros AL IF Hu.
+  rewrite atrace_app, EF.
+  destruct (exists_last NE) as (pre0 & sl & EP).
+  assert (NT : atrace pre st <> []).
+  { rewrite EP. rewrite atrace_app. destruct (atrace pre0 st); cbn [atrace app]; destruct (astep _ _) as [[? ?] ?]; discriminate. }
+  destruct (exists_last NT) as (X & rl & EX). rewrite EX in AL. rewrite last_last in AL. subst rl.
+  rewrite EX.
+  cbn [atrace]. destruct (astep img (yp, up, zp)) as [[yi ui] zi] eqn:EI.
+  rewrite !map_app. cbn [map fst snd]. rewrite <- (app_assoc (map snd X) [up] [ui]). cbn [app].
+  rewrite image_solve_kernel.
+  replace (map a_z pre ++ [a_z img - yi / up]) with (map a_z (pre ++ shift_from (- (yi / up)) [img]))
+    by (rewrite map_app; cbn [shift_from map shift_surf a_z]; f_equal; f_equal; ring).
+  rewrite with_zs_shift.
+  assert (EY : fst (nth (List.length pre) (atrace (pre ++ [img]) st) (0, 0)) = yi).
+  { rewrite atrace_app, EF. rewrite app_nth2 by (rewrite atrace_length; lia).
+    rewrite atrace_length, Nat.sub_diag. cbn [atrace]. rewrite EI. reflexivity. }
+  specialize (IF Hu). cbv zeta in IF. rewrite EY in IF. exact IF.
 Qed.
 
 (** non-vacuous: a single refracting surface met by a converging ray *)
 Example mrh_ex :
   fst (nth 0 (atrace ([] ++ shift_from ((2 - 1) / (1 / 10)) [mkAS 10 (/ 20) 1 2 false false]) (0, 1 / 10, 0)) (0, 0)) = 2.
 Proof. cbn. field. Qed.
+
+(** non-vacuous instance of [mrh_solve_places]: a dummy plane, then a refracting surface (the hypotheses
+    hold: the ray leaves the plane with slope 1/10) *)
+Example mrh_places_ex :
+  let pre := [mkAS 0 0 1 1 false false] in
+  let s := mkAS 10 (/ 20) 1 2 false false in
+  let st := (0, 1 / 10, -5) in
+  let rec := atrace (pre ++ [s]) st in
+  fst (nth 1 (atrace (with_zs (pre ++ [s])
+        (k_c01_mrh_apply ROps (map fst rec) (map snd rec) 1 2 (map a_z (pre ++ [s])) 2)) st) (0, 0)) = 2.
+Proof.
+  cbv zeta.
+  generalize (mrh_solve_places [mkAS 0 0 1 1 false false] (mkAS 10 (/ 20) 1 2 false false) [] (0, 1 / 10, -5) 2
+                ltac:(discriminate) eq_refl).
+  cbv zeta. cbn [afinal fold_left astep surf_matrix next_z a_obj a_refl mapply mmul refraction transfer
+                 ma mb mc md fst snd a_z a_c a_n1 a_n2 List.length app Z.of_nat].
+  intros H. apply H. lra.
+Qed.
